@@ -1029,13 +1029,23 @@ impl<'de> serde::de::Visitor<'de> for DataVisitor<'_> {
                     // temporary public IDs are deserialized exactly
                     // as they were serialized. So if there were any gaps,
                     // we need to deserialize these too:
-                    if self.dataset.data_len() > handle + pre_length {
+                    if self.dataset.data_len() > handle.saturating_add(pre_length) {
                         return Err(serde::de::Error::custom(
                             "unable to resolve temporary public identifiers for annotation data",
                         ));
                     } else if handle > self.dataset.data_len() {
                         // expand the gaps, though this wastes memory if ensures that all references
                         // are valid without explicitly storing public identifiers.
+                        // The number comes from the input: a failing allocation must be an error, not an abort.
+                        let additional = (handle - self.dataset.data_len()).saturating_add(1);
+                        self.dataset
+                            .data
+                            .try_reserve(additional)
+                            .map_err(|_| -> A::Error {
+                                serde::de::Error::custom(
+                                    "unable to allocate memory for the gap implied by a temporary public identifier for annotation data",
+                                )
+                            })?;
                         self.dataset.data.resize_with(handle, Default::default);
                     }
                 }
